@@ -80,6 +80,16 @@ func c08ValidateDominates(c *Ctx, rule string) {
 		key := f.Name + "|typed-write#" + itoa(i+1)
 		wl, _ := g.Locate(wr)
 		ok := false
+		// a write whose operand is an interface value (the arms computed a payload and one write emits it) has no
+		// static type to check against the arm: the value's route from Validate is not followed
+		if len(wr.Args) == 3 {
+			if t := f.TypeOf(wr.Args[2]); t != nil {
+				if _, isIface := t.Underlying().(*types.Interface); isIface {
+					c.Undecided(rule, key, "the value written at %s has interface type: which arm's value it is, and whether it passed Validate, is not decided", c.W.Pos(wr.Pos()))
+					continue
+				}
+			}
+		}
 		for _, v := range vals {
 			es := errSucc(f, g, f.Decl.Body, v)
 			vl, _ := g.Locate(v)
@@ -100,7 +110,17 @@ func c08ValidateDominates(c *Ctx, rule string) {
 				return Go
 			}, nil)
 			// Validate must be applied to the value that is written
-			sameVal := len(v.Args) == 1 && strings.Contains(exprKey(wr.Args[2]), exprKey(v.Args[0]))
+			written := exprKey(wr.Args[2])
+			// a local that holds (part of) the value: `str := val.(string)` … uint32(len(str))
+			ast.Inspect(wr.Args[2], func(y ast.Node) bool {
+				if id, ok := y.(*ast.Ident); ok {
+					if rhs, _, ok := f.definedBy(f.Decl.Body, f.ObjOf(id)); ok {
+						written += " " + exprKey(rhs)
+					}
+				}
+				return true
+			})
+			sameVal := len(v.Args) == 1 && strings.Contains(written, exprKey(v.Args[0]))
 			if !viaErr && sameVal {
 				ok = true
 			}
@@ -241,7 +261,11 @@ func c08IntRange(c *Ctx, rule string) {
 	})
 	// Encode: INT arm narrows with int32(val.(int64)), BIGINT writes int64
 	if ef := c.W.F("storage.(*Tuple).Encode"); ef != nil {
-		wi, _ := Grammar(ef, true, nil)
+		wi, probs := Grammar(ef, true, nil)
+		if len(probs) > 0 {
+			c.Undecided(rule, ef.Name+"|widths", "the wire grammar of Tuple.Encode could not be extracted (%s)", strings.Join(probs, "; "))
+			wi = nil
+		}
 		var walk func(items []Item)
 		widths := map[string]int{}
 		walk = func(items []Item) {
@@ -259,7 +283,9 @@ func c08IntRange(c *Ctx, rule string) {
 			}
 		}
 		walk(wi)
-		c.Check(widths["TypeInt"] == 4 && widths["TypeBigInt"] == 8 && widths["TypeBoolean"] == 1, rule, ef.Name+"|widths", ef.Decl.Pos(), "INT 4 bytes, BIGINT 8 bytes, BOOLEAN 1 byte", "column types are not encoded with widths INT=4, BIGINT=8, BOOLEAN=1")
+		if wi != nil {
+			c.Check(widths["TypeInt"] == 4 && widths["TypeBigInt"] == 8 && widths["TypeBoolean"] == 1, rule, ef.Name+"|widths", ef.Decl.Pos(), "INT 4 bytes, BIGINT 8 bytes, BOOLEAN 1 byte", "column types are not encoded with widths INT=4, BIGINT=8, BOOLEAN=1")
+		}
 	}
 }
 
@@ -491,7 +517,16 @@ func c08Literals(c *Ctx, rule string) {
 			continue
 		}
 		v := retVal(cc)
-		c.Check(v != nil && exprKey(v) == spec.want, rule, key, cc.Pos(), spec.tok+" -> "+spec.want, "the "+spec.tok+" arm does not return "+spec.want)
+		okVal := v != nil && exprKey(v) == spec.want
+		// a merged TRUE/FALSE arm that returns `tag == TRUE` (or `tag != FALSE`) returns true exactly for TRUE
+		if !okVal && v != nil && (spec.tok == "TRUE" || spec.tok == "FALSE") && len(cc.List) == 2 {
+			if be, ok := ast.Unparen(v).(*ast.BinaryExpr); ok && strings.HasSuffix(exprKey(be.X), ".Type") {
+				if cst := f.namedConst(be.Y); cst != nil {
+					okVal = (be.Op == token.EQL && cst.Name() == "TRUE") || (be.Op == token.NEQ && cst.Name() == "FALSE")
+				}
+			}
+		}
+		c.Check(okVal, rule, key, cc.Pos(), spec.tok+" -> "+spec.want, "the "+spec.tok+" arm does not return "+spec.want)
 	}
 	key := f.Name + "|INT"
 	if cc := arms["INT"]; cc == nil {
@@ -661,8 +696,63 @@ func c08TypeMapping(c *Ctx, rule string) {
 			}
 			return true
 		})
-		for tok, typ := range want1 {
-			c.Check(got[tok] == typ, rule, f.Name+"|"+tok, f.Decl.Pos(), tok+" -> "+typ, "the parser maps "+tok+" to "+got[tok]+", expected "+typ)
+		// other spellings: if/else-if on the token type, and a table for the types without parameters
+		g := f.Graph()
+		var tagKeys []string
+		ast.Inspect(f.Decl.Body, func(y ast.Node) bool {
+			switch z := y.(type) {
+			case *ast.SwitchStmt:
+				if z.Tag != nil && strings.HasSuffix(exprKey(z.Tag), ".Type") {
+					tagKeys = append(tagKeys, exprKey(z.Tag))
+				}
+			case *ast.BinaryExpr:
+				if z.Op == token.EQL && strings.HasSuffix(exprKey(z.X), ".Type") {
+					tagKeys = append(tagKeys, exprKey(z.X))
+				}
+			}
+			return true
+		})
+		inspectBody(f.Decl.Body, func(y ast.Node) bool {
+			as, ok := y.(*ast.AssignStmt)
+			if !ok || len(as.Lhs) != 1 || len(as.Rhs) != 1 {
+				return true
+			}
+			sel, ok := ast.Unparen(as.Lhs[0]).(*ast.SelectorExpr)
+			if !ok || sel.Sel.Name != "DataType" {
+				return true
+			}
+			if id, ok := ast.Unparen(as.Rhs[0]).(*ast.Ident); ok {
+				if rhs, _, ok := f.definedBy(f.Decl.Body, f.ObjOf(id)); ok {
+					if ix, ok := ast.Unparen(rhs).(*ast.IndexExpr); ok && strings.HasSuffix(exprKey(ix.Index), ".Type") {
+						for k, v := range tableLiteral(f, ix.X) {
+							if n, ok := f.TypeOf(v).(*types.Named); ok && got[k] == "" {
+								got[k] = n.Obj().Name()
+							}
+						}
+						return true
+					}
+				}
+			}
+			n, ok := f.TypeOf(as.Rhs[0]).(*types.Named)
+			loc, located := g.Locate(as)
+			if !ok || !located {
+				return true
+			}
+			for tok := range want1 {
+				for _, tk := range tagKeys {
+					if got[tok] == "" && g.HoldsAt(loc, Rel{tk, token.EQL, tok}) {
+						got[tok] = n.Obj().Name()
+					}
+				}
+			}
+			return true
+		})
+		if len(got) == 0 {
+			c.Undecided(rule, f.Name+"|types", "no dispatch on the type keyword recognised in TableElements")
+		} else {
+			for tok, typ := range want1 {
+				c.Check(got[tok] == typ, rule, f.Name+"|"+tok, f.Decl.Pos(), tok+" -> "+typ, "the parser maps "+tok+" to "+got[tok]+", expected "+typ)
+			}
 		}
 	}
 	if f := c.NeedFunc(rule, "engine.EvaluateCreateTable"); f != nil {
@@ -759,6 +849,7 @@ func runC14(c *Ctx) {
 	ruleNoRedundantSwitchBreak(c, "C14.11", "storage", "engine")
 	ruleNoStateBeforeRefusal(c, "C14.12")
 	c14CreateAtomic(c, "C14.13")
+	ruleLogLengthBound(c, "C14.14")
 }
 
 func c14RowValidationFirst(c *Ctx, rule string) {
@@ -979,5 +1070,11 @@ func c14CreateTable(c *Ctx, rule string) {
 	// polarity: error unless lookup says ErrTableNotExist
 	be, ok := ast.Unparen(test.Cond).(*ast.BinaryExpr)
 	okPol := ok && be.Op == token.NEQ && strings.HasSuffix(exprKey(be.Y), "ErrTableNotExist")
+	if u, isNot := ast.Unparen(test.Cond).(*ast.UnaryExpr); isNot && u.Op == token.NOT {
+		// !errors.Is(err, ErrTableNotExist)
+		if _, y, isIs := errorsIsOperands(u.X); isIs && strings.HasSuffix(exprKey(y), "ErrTableNotExist") {
+			okPol = true
+		}
+	}
 	c.Check(okPol, rule, f.Name+"|exists-polarity", test.Pos(), "refused unless the lookup reports ErrTableNotExist", "the duplicate test does not refuse exactly when the lookup did not report ErrTableNotExist")
 }
